@@ -45,6 +45,16 @@ def recover(v: float, maxden: int, tol: float):
     return f
 
 
+def rounded(v: float):
+    """A value that is NOT the small-denominator rational it should be (recover failed): the
+    nearest multiple of 1/256 (TLC integers are 32 bit and the predicates multiply these numbers),
+    so that TLC can still see that it differs from the exact result (deviations below 1/512 may
+    round onto it: those are left to the law part)."""
+    v = float(v)
+    den = 256 if abs(v) < 1.0e5 else 1
+    return F(int(round(v * den)), den)
+
+
 def exact_int_array(a):
     """numpy array of floats holding integers -> nested lists of int, or None."""
     a = np.asarray(a)
